@@ -4,6 +4,8 @@ set -e
 cd "$(dirname "$0")"
 export CARGO_NET_OFFLINE=true
 (cd lean && lake build VarproModel driver)
-cp /repo/Cargo.lock harness/Cargo.lock
+REPO=${VARPRO_REPO:-/repo}
+sed -i "s#varpro = { path = \"[^\"]*\" }#varpro = { path = \"$REPO\" }#" harness/Cargo.toml
+cp $REPO/Cargo.lock harness/Cargo.lock
 (cd harness && cargo build --offline --profile release --features parallel && cargo build --offline --profile checked --features parallel)
 echo setup-ok
